@@ -42,6 +42,19 @@ func accessPath(v ssa.Value) string {
 	return "?"
 }
 
+// lockIdentity names a mutex by the struct type and field that holds it
+// ("leaderController.RWMutex"); locks are thus identified per type, not per instance,
+// which is what lets a callee's lock state be related to its callers'. Mutexes that
+// are not struct fields fall back to their access path.
+func lockIdentity(v ssa.Value) string {
+	if fa, ok := Canon(v).(*ssa.FieldAddr); ok {
+		if ref, ok := FieldAddrOf(fa); ok && ref.Struct != nil {
+			return ref.Struct.Obj().Name() + "." + ref.Field
+		}
+	}
+	return accessPath(v)
+}
+
 // LockOps lists the sync.Mutex / sync.RWMutex operations of fn in block order.
 func LockOps(fn *ssa.Function) []LockOp {
 	var out []LockOp
@@ -65,7 +78,7 @@ func LockOps(fn *ssa.Function) []LockOp {
 			return
 		}
 		_, isDefer := in.(*ssa.Defer)
-		out = append(out, LockOp{Instr: in, Lock: accessPath(c.Args[0]), Op: callee.Name(), Defer: isDefer})
+		out = append(out, LockOp{Instr: in, Lock: lockIdentity(c.Args[0]), Op: callee.Name(), Defer: isDefer})
 	})
 	return out
 }
@@ -74,6 +87,11 @@ func LockOps(fn *ssa.Function) []LockOp {
 // every path reaching it (must-analysis). A deferred unlock keeps the lock held up to
 // the exit. Read locks are reported as "R:"+lock.
 func HeldAt(fn *ssa.Function) map[ssa.Instruction]map[string]bool {
+	return HeldAtFrom(fn, nil)
+}
+
+// HeldAtFrom is HeldAt with a set of locks assumed to be held at the function entry.
+func HeldAtFrom(fn *ssa.Function, entry map[string]bool) map[ssa.Instruction]map[string]bool {
 	ops := map[ssa.Instruction]LockOp{}
 	for _, o := range LockOps(fn) {
 		ops[o.Instr] = o
@@ -108,6 +126,9 @@ func HeldAt(fn *ssa.Function) map[ssa.Instruction]map[string]bool {
 		return nil
 	}
 	in[0] = state{}
+	for k := range entry {
+		in[0][k] = true
+	}
 	known[0] = true
 	work := []*ssa.BasicBlock{fn.Blocks[0]}
 	for len(work) > 0 {
@@ -197,4 +218,48 @@ func SameCriticalSection(fn *ssa.Function, a, b ssa.Instruction) (bool, string) 
 		}
 	}
 	return false, "the lock is released between the two points"
+}
+
+// EntryHeld computes the locks that every static caller holds when it calls fn
+// (intersection over call sites; callers that are themselves only called with locks
+// held are followed up to three levels). Functions with unknown callers (exported
+// methods reached through interfaces, function values) get the empty set.
+func (p *Prog) EntryHeld(fn *ssa.Function, depth int) map[string]bool {
+	if depth > 3 {
+		return map[string]bool{}
+	}
+	edges := p.CallersOf(fn)
+	if len(edges) == 0 {
+		return map[string]bool{}
+	}
+	var acc map[string]bool
+	for _, e := range edges {
+		if e.Site == nil || e.Site.Common().StaticCallee() != fn {
+			return map[string]bool{}
+		}
+		if _, isGo := e.Site.(*ssa.Go); isGo {
+			return map[string]bool{}
+		}
+		caller := e.Caller.Func
+		held := HeldAtFrom(caller, p.EntryHeld(caller, depth+1))[e.Site]
+		if _, isDefer := e.Site.(*ssa.Defer); isDefer {
+			held = map[string]bool{}
+		}
+		if acc == nil {
+			acc = map[string]bool{}
+			for k := range held {
+				acc[k] = true
+			}
+		} else {
+			for k := range acc {
+				if !held[k] {
+					delete(acc, k)
+				}
+			}
+		}
+	}
+	if acc == nil {
+		acc = map[string]bool{}
+	}
+	return acc
 }
